@@ -28,10 +28,10 @@ CHECKS = {
          "The decision vectors, start orders and stale prefixes are enumerated completely (k=2 quick, k=3 thorough); for each the negotiated windows, the SYNs actually delivered and the eventual request/response exchange are checked.",
          "stale SYNs really delivered are not held against the server; schedules within a case are sampled", "3/C10", True),
  "C12": ("exploration", "runtime monitoring: Close injected at recorded event instants of real gbn scenarios in virtual time; bounded-return, FIN, wake-up oracles and a goroutine census of the bubble",
-         "For every drawn scenario Close is injected at the instants of its own wire events (and at random ones), by either side, both, or twice concurrently, over a working or dead transport, with slow and stalled consumers; handshake-phase cancellation and a real-time slice for blocking transports. The census enumerates every goroutine started inside the bubble.",
+         "For every drawn scenario Close is injected at the instants of its own wire events (and at random ones), by either side, both, or twice concurrently, over a working or dead transport, with slow and stalled consumers; handshake-phase cancellation, real-time slices for blocking transports (gbn level and a mailbox connection whose write is blocked by relay backpressure) and a goroutine census after scripted mailbox sessions. The census enumerates every goroutine started inside the bubble.",
          "bounds are exact in virtual time; bare time.Ticker objects without goroutine are not enumerable; schedules sampled", "3/C12", True),
  "C13": ("exploration", "runtime monitoring: silence injected at swept instants into real gbn connections in virtual time, detection-time oracle; hours of virtual idleness for the healthy-peer clause",
-         "Dead-peer detection is timed exactly on the virtual clock for every backlog class (0..N+5) and ping/pong setting; healthy idle connections are watched for up to 24 virtual hours with round-trip times up to the pong timeout.",
+         "Dead-peer detection is timed exactly on the virtual clock for every backlog class (0..N+5) and ping/pong setting; healthy idle connections are watched for up to 24 virtual hours with round-trip times up to the pong timeout (incl. the edge family in which ticks keep coinciding with arrivals); real-time slices add a slow transport, a transport with backpressure at the gbn level, and mailbox-level sessions (dead peer behind a relay holding four messages, 14 s send outage).",
          "detection bound uses the connection's own boosted resend timeout", "3/C13", True),
  "C14": ("exploration", "runtime monitoring: message-boundary oracle over the real gbn code in virtual time; exhaustive small domain of lengths x chunk sizes, random large payloads with faults, deadlines placed between chunks with retries",
          "All lengths 0..25 x chunk sizes 0..8 x all length triples are transferred and compared byte-for-byte; deadline cases place the timer between two chunks of one message.",
@@ -61,7 +61,7 @@ CHECKS = {
          "Close-by-client / close-by-server / relay-failure / idle events in PRNG order, each followed by an echo on the current or a fresh connection; after pairing every connection must live at the key-derived rendezvous.",
          "real-time liveness verdicts follow the re-run rule", "3/C11", True),
  "C15": ("exploration", "runtime monitoring: net.Conn contract oracle (n<=len(buf), untouched tail, stream equality, write counts) over NoiseGrpcConn, NoiseConn and the plain mailbox connKit with PRNG write sizes and read-buffer sizes",
-         "Read buffers from 1 byte to larger than a record; writes up to 300000 bytes on the TCP variant; oversized writes on the gRPC variant must fail cleanly.",
+         "Read buffers from 1 byte to larger than a record; writes up to 300000 bytes on the TCP variant; oversized writes on the gRPC variant must fail cleanly; transport write timeouts inside records; one credentials object serving connections in turn (abandoned mid-record, late writes by the holder of a closed connection, failed handshakes); calls after Close on every variant; the real Listener/Dial over loopback TCP with a socket that gathers writes.",
          "empty-record behaviour beyond the three clauses is not judged", "3/C15", True),
  "C16": ("exploration", "runtime monitoring: the same (deterministic-ephemeral) handshake and records run unfragmented and through fragmenting readers; partial-write writer with timeout errors over all two- and three-way splits of a record, compared byte-for-byte with a bit-identical twin session",
          "Outcome equality under read fragmentation; emitted-bytes equality, flushed-count sum and ErrMessageNotFlushed under partial writes.",
